@@ -307,6 +307,10 @@ func literalFor(t ggql.Type, depth int) string {
 		return "1.5"
 	case "Boolean":
 		return "true"
+	case "Time":
+		// a value the scalar accepts: with two unacceptable fields in one input
+		// object, which of them is reported is decided by Go's map iteration order
+		return `"2021-02-03T04:05:06Z"`
 	}
 	return `"s"`
 }
